@@ -114,6 +114,12 @@ def exact_direct(ck: Check, drv, torch, count):
             desc = {"tips": tips}
         rep = drv.ask(req)
         model = [Fraction(x) for x in rep.split()[1:]] if rep.startswith("ok") else None
+        if not tip_states and n >= 2:
+            # the specification side (explicit enumeration `allLabs`) run by the driver on the same input
+            rep2 = drv.ask(f"marg q {S} {K} {n} {N} | {' '.join(taxa)} | {G.tokens(topo)} | {' '.join(map(str, pi))} | "
+                           f"{' '.join(map(str, props))} | {flat_m} | " + " ".join(str(v) for t in tips for p in t for v in p))
+            if rep2 != rep:
+                ck.mismatch("Lean spec (sum over allLabs) differs from Lean loop", {"loop": rep[:200], "spec": rep2[:200]})
         detail = {"fn": fn.__name__, "post": post, "mats": mats, "pi": pi, "props": props, "weights": weights, **desc}
         try:
             out = fn(partials, torch.tensor(weights, dtype=torch.float64), post,
@@ -181,27 +187,32 @@ def json_case_lean(ck: Check, drv, torch, case, tag):
     if pat is None:
         ck.mismatch("model rejected alignment", {"case": case})
     else:
-        N = len(pat["weights"])
-        if [int(w) for w in model.weights.tolist()] != pat["weights"]:
-            ck.mismatch("pattern weights differ", {"case": case, "impl": model.weights.tolist(), "model": pat["weights"]})
+        # the tip data the model object holds (first n entries of .partials), per taxon index and pattern
+        if case.get("use_tip_states"):
+            impl_tips = [[int(v) for v in model.partials[i].tolist()] for i in range(n)]
+            if case["datatype"] == "codon":
+                lean_tips = [[dt["state"](s) for s in row] for row in pat["rows"]]
+            else:
+                lean_tips = pat["states"]
         else:
-            # the tip data the model object holds (first n entries of .partials)
-            if case.get("use_tip_states"):
-                impl_tips = [[int(v) for v in model.partials[i].tolist()] for i in range(n)]
-                if case["datatype"] == "codon":
-                    lean_tips = [[dt["state"](s) for s in row] for row in pat["rows"]]
-                else:
-                    lean_tips = pat["states"]
+            impl_tips = [[[int(v) for v in col] for col in model.partials[i].t().tolist()] for i in range(n)]
+            if case["datatype"] == "codon":
+                lean_tips = [[[int(v) for v in dt["vec"](s, True)] for s in row] for row in pat["rows"]]
             else:
-                impl_tips = [[[int(v) for v in col] for col in model.partials[i].t().tolist()] for i in range(n)]
-                if case["datatype"] == "codon":
-                    lean_tips = [[[int(v) for v in dt["vec"](s, True)] for s in row] for row in pat["rows"]]
-                else:
-                    lean_tips = pat["part"]
-            if impl_tips != lean_tips:
-                ck.mismatch("tip vectors / states differ", {"case": case, "impl": impl_tips, "model": lean_tips})
-            else:
-                tips_ok = True
+                lean_tips = pat["part"]
+        # canonical form: the multiset of (tip data of taxon 0..n-1, weight) — the order in which patterns are
+        # stored is not observable through the likelihood, the assignment of rows to taxon indices is
+        def canon(tips, weights):
+            return sorted((json.dumps([tips[i][p] for i in range(len(tips))]), int(weights[p])) for p in range(len(weights)))
+        try:
+            same = canon(impl_tips, model.weights.tolist()) == canon(lean_tips, pat["weights"])
+        except Exception:  # noqa: BLE001  (ragged data)
+            same = False
+        if not same:
+            ck.mismatch("patterns / weights / tip vectors differ", {"case": case, "impl": [impl_tips, model.weights.tolist()],
+                                                                    "model": [lean_tips, pat["weights"]]})
+        else:
+            tips_ok = True
     # ---- branch lengths (exact: + and - only)
     node_by_index = {x.index: x for x in t.postorder()}
     if case["rooting"] == "unrooted":
